@@ -210,6 +210,9 @@ namespace gen
         bool allowZeroWidth = true;
         int maxDepth = 3;
         vf::Ctx *ctx = nullptr;  // for known-finding exclusions by construction
+        // at most one of the curve families {Dubins, Dubins(symmetric), Reeds-Shepp} per generated space, so that a failure in a
+        // compound can be attributed to one family (each has its own known-finding keys)
+        mutable int curveFamily = -1;
     };
     // Known finding (not repaired, see known_findings.json): a WrapperStateSpace around a compound-layout space that is
     // itself a component of a compound makes StateSpace::setup() downcast the wrapper to CompoundStateSpace (UB).
@@ -273,6 +276,19 @@ namespace gen
                 }
                 d.p1 = k == 3 ? 1.0 : s.weighted({2, 1, 1}) == 0 ? 1.0 : s.logreal(0.2, 5.0);
                 d.symmetric = k == 11 && s.chance(64);
+                if (k != 3)
+                {
+                    int fam = k == 12 ? 2 : d.symmetric ? 1 : 0;
+                    if (o.curveFamily < 0)
+                        o.curveFamily = fam;
+                    else if (o.curveFamily != fam)
+                    {
+                        fam = o.curveFamily;
+                        k = fam == 2 ? 12 : 11;
+                        d.kind = k == 11 ? DUBINS : REEDSSHEPP;
+                        d.symmetric = fam == 1;
+                    }
+                }
                 std::shared_ptr<ob::SE2StateSpace> sp;
                 if (k == 3)
                     sp = std::make_shared<ob::SE2StateSpace>();
@@ -412,6 +428,28 @@ namespace gen
         }
         else
             f(d, st, weight);
+    }
+
+    // visits every node (not only leaves) of the descriptor tree with the corresponding sub-states of two states
+    template <class F>
+    void walkNodes2(const Desc &d, const ob::State *a, const ob::State *b, F &&f)
+    {
+        f(d, a, b);
+        if (d.kind == WRAPPER)
+            walkNodes2(d.subs[0], a->as<ob::WrapperStateSpace::StateType>()->getState(), b->as<ob::WrapperStateSpace::StateType>()->getState(), f);
+        else if (d.compoundLayout())
+            for (size_t i = 0; i < d.subs.size(); ++i)
+                walkNodes2(d.subs[i], static_cast<const ob::CompoundState *>(a)->components[i], static_cast<const ob::CompoundState *>(b)->components[i], f);
+    }
+    template <class F>
+    void walkNodesMut(const Desc &d, ob::State *a, F &&f)
+    {
+        f(d, a);
+        if (d.kind == WRAPPER)
+            walkNodesMut(d.subs[0], a->as<ob::WrapperStateSpace::StateType>()->getState(), f);
+        else if (d.compoundLayout())
+            for (size_t i = 0; i < d.subs.size(); ++i)
+                walkNodesMut(d.subs[i], static_cast<ob::CompoundState *>(a)->components[i], f);
     }
 
     inline std::string show(const Desc &d, const ob::State *st)
@@ -623,6 +661,87 @@ namespace gen
             }
         }
         return false;
+    }
+
+    // Largest leaf-wise difference between two states, per kind, measured by the harness on raw values
+    struct LeafDiff
+    {
+        double rv = 0;    // |delta| / max(1, |bounds|, |values|)
+        double ang = 0;   // wrapped |delta| of SO(2) angles
+        double quat = 0;  // acos|<p,q>|
+        double time = 0;  // relative like rv
+        int disc = 0;
+        bool nan = false;
+    };
+    inline LeafDiff leafDiff(const Desc &d, const ob::State *a, const ob::State *b)
+    {
+        struct Leaf
+        {
+            const Desc *l;
+            const ob::State *s;
+        };
+        std::vector<Leaf> la, lb;
+        walk(d, a, 1.0, [&](const Desc &l, const ob::State *x, double) { la.push_back({&l, x}); });
+        walk(d, b, 1.0, [&](const Desc &l, const ob::State *x, double) { lb.push_back({&l, x}); });
+        LeafDiff r;
+        for (size_t k = 0; k < la.size(); ++k)
+        {
+            const Desc &l = *la[k].l;
+            switch (l.kind)
+            {
+                case RV:
+                    for (size_t i = 0; i < l.lo.size(); ++i)
+                    {
+                        double x = la[k].s->as<ob::RealVectorStateSpace::StateType>()->values[i];
+                        double y = lb[k].s->as<ob::RealVectorStateSpace::StateType>()->values[i];
+                        double scale = std::max({1.0, std::fabs(x), std::fabs(y), std::fabs(l.lo[i]), std::fabs(l.hi[i])});
+                        if (!(std::isfinite(x) && std::isfinite(y)))
+                            r.nan = true;
+                        r.rv = std::max(r.rv, std::fabs(x - y) / scale);
+                    }
+                    break;
+                case SO2:
+                {
+                    double x = la[k].s->as<ob::SO2StateSpace::StateType>()->value, y = lb[k].s->as<ob::SO2StateSpace::StateType>()->value;
+                    if (!(std::isfinite(x) && std::isfinite(y)))
+                        r.nan = true;
+                    r.ang = std::max(r.ang, std::fabs(wrapPi(x - y)));
+                    break;
+                }
+                case SO3:
+                {
+                    auto *p = la[k].s->as<ob::SO3StateSpace::StateType>();
+                    auto *q = lb[k].s->as<ob::SO3StateSpace::StateType>();
+                    double dot = std::fabs(p->x * q->x + p->y * q->y + p->z * q->z + p->w * q->w);
+                    if (!std::isfinite(dot))
+                        r.nan = true;
+                    r.quat = std::max(r.quat, dot >= 1 ? 0 : std::acos(dot));
+                    break;
+                }
+                case TIME:
+                {
+                    double x = la[k].s->as<ob::TimeStateSpace::StateType>()->position, y = lb[k].s->as<ob::TimeStateSpace::StateType>()->position;
+                    if (!(std::isfinite(x) && std::isfinite(y)))
+                        r.nan = true;
+                    r.time = std::max(r.time, std::fabs(x - y) / std::max({1.0, std::fabs(x), std::fabs(y)}));
+                    break;
+                }
+                case DISCRETE:
+                    r.disc = std::max(r.disc, std::abs(la[k].s->as<ob::DiscreteStateSpace::StateType>()->value -
+                                                       lb[k].s->as<ob::DiscreteStateSpace::StateType>()->value));
+                    break;
+                default:
+                    break;
+            }
+        }
+        return r;
+    }
+    inline std::string serialImage(const ob::StateSpacePtr &sp, const ob::State *s)
+    {
+        std::string buf(sp->getSerializationLength(), '\0');
+        if (!buf.empty())
+            sp->serialize(&buf[0], s);
+        return buf;
     }
 
     // magnitude scale of the coordinates involved (for tolerances)
